@@ -160,6 +160,45 @@ def replay_behaviours(args):
         elif o[1] != fresh:
             t.fail("C06|%s|depends-on-what-ran-before-in-the-process" % cname, {"other": name_of(other[0]), "here": o[1][-1], "fresh_interpreter": fresh[-1]})
 
+    # batch = streaming also over a history with sensor dropouts (all-zero accelerometer / magnetometer rows while the gyroscope reads a
+    # real rate): whatever a class does with such a row, the N-sample constructor and the per-sample method do the same
+    if not extra.get("__repeat_only__") and real["f"] not in ("Complementary", "FKF"):
+        n_ = 30
+        rng_ = core.rng(7, "c06-dropout", cname)
+        for kind in ("acc", "mag", "acc+mag"):
+            ids_ = [1 + (i * 7 + i // 3) % 3 for i in range(n_)]
+            g_, a_, m_ = data(ids_)
+            g_ = g_ + np.array([1.1, -0.6, 0.8])                 # a brisk rotation: a wrong time step over the gap shows
+            a_, m_ = a_.copy(), m_.copy()
+            if "acc" in kind:
+                a_[10:15] = 0.0
+            if "mag" in kind:
+                m_[18:21] = 0.0
+            if kind == "mag" and real["arch"] != "MARG":
+                continue
+            t.calls += 1
+
+            def both():
+                ex_s, ex_b, dt_ = split_extra(extra)
+                hon = honours
+                _, outb = FL.batch(real, g_, a_, m_, q0=Q0.copy() if hon else None, extra=ex_b)
+                outb = np.asarray(outb, dtype=float)
+                obj = FL.create(real, extra=ex_s)
+                rows = [outb[0].copy()]
+                for i in range(1, n_):
+                    rows.append(np.asarray(FL.step(real, obj, rows[-1], g_[i], a_[i], m_[i], dt=dt_), dtype=float))
+                return outb, np.array(rows)
+            o = core.outcome(both)
+            if o[0] != "ok":
+                if o[1] != "ValueError":        # a class may refuse a null sample outright (then both routes refuse it: C13 decides that)
+                    t.fail("C06|%s|dropout-history-raises-%s" % (cname, o[1]), {"kind": kind, "err": o[2]})
+                continue
+            outb, outs = o[1]
+            d_ = maxdiff(outb, outs)
+            if not d_ <= 1e-12:
+                k_ = int(np.argmax(np.max(np.abs(outb - outs), axis=1) > 1e-12))
+                t.fail("C06|%s|batch-vs-stream-over-a-dropout|%s" % (cname, kind), {"kind": kind, "first_row_that_differs": k_, "batch": outb[k_], "stream": outs[k_], "diff": d_})
+
     if extra.get("__repeat_only__") and other[2]:
         # the one estimator that draws from NumPy's global RNG, under ONE seed: an instance of another configuration that was GIVEN its
         # initial attitude (and so has no use for random numbers) runs first -- the draws this configuration sees are the same
